@@ -7,6 +7,7 @@ from the source (`Gen.Compress`). Tied by the differential run through the real 
 with the real snappy.
 -/
 import SamVerif.Model.Compress
+import SamVerif.Gen.Filters
 namespace SamVerif.Props.C13
 open SamVerif SamVerif.Compress
 
@@ -122,6 +123,55 @@ example : compressValue idCodec 4 [1,2,3,4,5,6,7,8] = [1,2,3,4,5,6,7,8] := by de
 example : isFramed [40, 80, 36, 0, 13, 88] = false := by decide     -- resembles a frame, is not one (F-13b)
 example : isFramed [40, 80, 36, 0, 13, 10, 7] = true := by decide
 
+/-- **The code the model was written against.** The statements of the modelled functions,
+regenerated from the current source on every run, are the ones the model was written against;
+any edit to one of them makes this obligation fail and starts a search for a failing input. -/
+theorem code_matches_model :
+    Gen.Filters.compressDo =
+      ["if f.cfg == nil || f.cfg.GetRedisOption() == nil || f.cfg.GetRedisOption().GetCompression() == nil { return Continue }",
+      "if _, ok := wkSkipCheckCmdsInDecps[cmd]; !ok { req.RegisterHook(func(request *simpleRequest) { f.Decompress(request.resp) }) }",
+      "cfg := f.cfg.GetRedisOption().GetCompression()",
+      "if !cfg.Enable { return Continue }",
+      "if _, ok := bannedCmdsInCps[cmd]; ok { errStr := fmt.Sprintf(\"ERR command '%s' is disabled in compress mode\", cmd) req.SetResponse(newError(errStr)) return Stop }",
+      "f.Compress(cfg, cmd, req.body)",
+      "return Continue"] ∧
+    Gen.Filters.compressCompress =
+      ["// get the offset of first value in resp array, there are two kind command: // 1) command key value // 2) command key field1 value1 [field2 value2]... // command key time value var offset int",
+      "switch command { case \"set\", \"getset\", \"setnx\": offset = 2 case \"hset\", \"hmset\", \"hsetnx\", \"psetex\", \"setex\": offset = 3 default: return }",
+      "for i := offset; i < len(resp.Array); i += 2 { r := resp.Array[i] if uint32(len(r.Text)) < cfg.Threshold { continue } if bytes.HasPrefix(r.Text, cpsHdrs[cfg.Algorithm]) { continue } r.Text = f.compress(r.Text, cfg.Algorithm) resp.Array[i] = r }"] ∧
+    Gen.Filters.compressDecompress =
+      ["switch resp.Type { case Integer, Error: return case Array: for idx, r := range resp.Array { f.Decompress(&r) resp.Array[idx] = r } default: if dst, err := f.decompress(resp.Text); err == nil { resp.Text = dst } }"] ∧
+    Gen.Filters.compress =
+      ["b := newBuffer()",
+      "defer b.Close()",
+      "w, err := compressor.NewWriter(algorithm.String(), b)",
+      "if err != nil { return src }",
+      "b.Write(cpsHdrs[algorithm])",
+      "if _, err := w.Write(src); err != nil { w.Close() return src }",
+      "w.Close()",
+      "if b.Len() >= len(src) { return src }",
+      "n := copy(src, b.Bytes())",
+      "return src[:n]"] ∧
+    Gen.Filters.decompress =
+      ["if len(src) < cpsHdrLen { return nil, errMissingCpsHdr }",
+      "if !bytes.Equal([]byte(cpsMagicNumber), src[:len(cpsMagicNumber)]) { return nil, errMissingCpsMagicNumber }",
+      "algorithm, ok := redis.Compression_Algorithm_name[int32(src[len(cpsMagicNumber)])]",
+      "if !ok { return nil, errInvalidCpsAlgorithm }",
+      "if !bytes.Equal(CRLF, src[len(cpsMagicNumber)+1:cpsHdrLen]) { return nil, errMissingCpsHdr }",
+      "br := newReader()",
+      "defer br.Close()",
+      "r, err := compressor.NewReader(algorithm, br)",
+      "if err != nil { return nil, errUnsupportedCpsAlgorithm }",
+      "br.Reset(src[cpsHdrLen:])",
+      "b := newBuffer()",
+      "defer b.Close()",
+      "_, err = b.ReadFrom(r)",
+      "if err != nil { return nil, err }",
+      "dst := make([]byte, b.Len())",
+      "copy(dst, b.Bytes())",
+      "return dst, nil"] := by
+  refine ⟨rfl, rfl, rfl, rfl, rfl⟩
+
 end SamVerif.Props.C13
 
 #print axioms SamVerif.Props.C13.stored_is_original_or_frame
@@ -130,3 +180,4 @@ end SamVerif.Props.C13
 #print axioms SamVerif.Props.C13.read_back_general
 #print axioms SamVerif.Props.C13.banned_rejected_locally
 #print axioms SamVerif.Props.C13.positions_and_guards
+#print axioms SamVerif.Props.C13.code_matches_model
